@@ -133,6 +133,12 @@ func (ce *clauseEnv) tr(x *SX, bound map[string]bool, old bool) *SX {
 			}
 			panic(unsupported{"contract refers to unknown outer variable " + a, token.NoPos})
 		}
+		if strings.HasSuffix(a, "@iter") {
+			if t, ok := ce.st.ghosts[a]; ok {
+				return atom(t)
+			}
+			panic(unsupported{"contract refers to unknown iteration-start value " + a, token.NoPos})
+		}
 		if strings.HasSuffix(a, "@entry") {
 			if t, ok := ce.st.ghosts[a]; ok {
 				return atom(t)
